@@ -160,7 +160,15 @@ class Check:
             rep = None
             info = None
             # try a few models of the same failure class before giving up
-            for cand in fs[:4]:
+            n_try = getattr(self, 'replay_candidates', 4)
+            if len(fs) > n_try:
+                # models from different paths, spread over the whole list (the first few paths often differ
+                # only in their last decision)
+                stride = len(fs) / float(n_try)
+                cands = [fs[int(i * stride)] for i in range(n_try)]
+            else:
+                cands = fs
+            for cand in cands:
                 try:
                     rep, info = self.replay(cand)
                 except Exception as e:  # replay machinery itself failed
